@@ -18,7 +18,6 @@ package main
 import (
 	"bytes"
 	"context"
-	"crypto/ecdsa"
 	"crypto/sha256"
 	"encoding/hex"
 	"fmt"
@@ -26,6 +25,7 @@ import (
 	"sort"
 	"strings"
 
+	"github.com/btcsuite/btcd/btcec/v2"
 	"gitlab.com/aquachain/aquachain/aqua/accounts"
 	"gitlab.com/aquachain/aquachain/aquadb"
 	"gitlab.com/aquachain/aquachain/common"
@@ -46,7 +46,7 @@ import (
 // ---------------------------------------------------------------- fixtures
 
 var (
-	keys  []*ecdsa.PrivateKey
+	keys  []*btcec.PrivateKey
 	addrs []common.Address
 
 	storeAddr  = common.HexToAddress("0x00000000000000000000000000000000000c0001")
@@ -102,12 +102,9 @@ func word(v uint64) []byte { return common.LeftPadBytes(new(big.Int).SetUint64(v
 
 func init() {
 	for i := 0; i < 4; i++ {
-		k, err := crypto.ToECDSA(common.LeftPadBytes([]byte{0xC0, 0x01, byte(i + 1)}, 32))
-		if err != nil {
-			panic(err)
-		}
+		k := crypto.ToECDSAUnsafe(common.LeftPadBytes([]byte{0xC0, 0x01, byte(i + 1)}, 32))
 		keys = append(keys, k)
-		addrs = append(addrs, crypto.PubkeyToAddress(k.PublicKey))
+		addrs = append(addrs, crypto.PubkeyToAddress(k.PubKey()))
 	}
 }
 
